@@ -38,3 +38,18 @@ Theorem c01_merge_keeps_text :
     = filter (fun s => negb (is_empty s)) (map fin (runs A S cat l None)).
 Proof. intros. apply merge_strs. Qed.
 Print Assumptions c01_merge_keeps_text.
+
+(* BEGIN PINS (tools/repin.py) *)
+From WTP Require Import Gen.GenPins.
+Module Pins.
+Import String.
+(* The models of this property were transcribed from: parser.py:_parser_merge_str_children.
+   Gen/GenPins.v holds the digests of these functions in the current source (translate/pins.py: syntax tree without
+   docstrings, comments and layout).  A different digest means that the model is no longer known to describe the
+   code; the check then reports the broken tie and looks for a failing input. *)
+Theorem c01_models_describe_the_current_source :
+  pin_merge_str_children = "1df751192f3d260a"%string.
+Proof. reflexivity. Qed.
+Print Assumptions c01_models_describe_the_current_source.
+End Pins.
+(* END PINS *)
